@@ -105,6 +105,59 @@ __CPROVER_decreases(ee - e)'''},
     says='callback constructor: the index array is the prefix sum of the callback\'s edge counts (so node n owns [idx[n-1], idx[n])), and slot idx[p-1]+e holds exactly edgeDst(p,e) / edgeData(p,e) for every node p and every e < edgeNum(p) (ghost probe), i.e. the graph presents the callback\'s out-edges in callback order',
     trusted=['allocation block of the constructor dropped (S-slice style): the three arrays are supplied by the harness', 'callbacks are deterministic functions (uninterpreted)']))
 
+# bounded sibling: the same constructor body, every loop unwound, graphs with <= 3 nodes and <= 3 edges per node.  Its lowering
+# rules are tolerant (no must-fire counts tied to the loop structure), so a RESTRUCTURED constructor (other loop nest, other
+# order of the passes) is still judged -- by complete execution on all small graphs -- when the invariants above no longer fit.
+CPB = """
+struct CSR { uint32_t numNodes; uint64_t numEdges; uint64_t* edgeIndData; uint32_t* edgeDst; uint64_t* edgeData; };
+#define BN 3u
+#define BD 3u
+uint64_t DEG[BN]; uint32_t DST[BN][BD]; uint64_t DAT[BN][BD];
+static inline uint64_t edgeNum_cb(size_t n) { __CPROVER_assert(n < BN, "edgeNum(n): node in range"); return DEG[n]; }
+static inline uint32_t edgeDst_cb(size_t n, uint64_t e) { __CPROVER_assert(n < BN && e < DEG[n], "edgeDst(n, e): edge in range"); return DST[n][e]; }
+static inline uint64_t edgeData_cb(size_t n, uint64_t e) { __CPROVER_assert(n < BN && e < DEG[n], "edgeData(n, e): edge in range"); return DAT[n][e]; }
+#define GV_NOP(...) ((void)0)
+uint64_t IDXA[BN]; uint32_t DSTA[BN * BD + 1]; uint64_t DATA_[BN * BD + 1];
+struct CSR G;
+void CSR_callback_ctor_b(struct CSR* self, uint32_t _numNodes, uint64_t _numEdges);
+uint32_t nondet_u32(void); uint64_t nondet_u64(void);
+"""
+UNITS.append(Unit(
+    name='CSR_callback_ctor_small', kind='bounded', unwind=5, dfcc=False, bound_desc='numNodes <= 3, every degree <= 3 (all such graphs, all destinations and data), loops unwound completely',
+    src=CSR, within=WITHIN, anchor=r'LC_CSR_Graph\(uint32_t _numNodes, uint64_t _numEdges, EdgeNumFnTy edgeNum,',
+    proto='void CSR_callback_ctor_b(struct CSR* self, uint32_t _numNodes, uint64_t _numEdges)', ctor_inits=['numNodes', 'numEdges'], contract='',
+    prelude=[CPB],
+    lower=[rx(r'if \(UseNumaAlloc\) \{.*?\n    \} else \{.*?\n    \}', '', 1, 1, flags=re.S),
+           rx(r'nodeData\.constructAt\(n\);', 'GV_NOP(n);', 0),
+           rx(r'(?<![\w.>])edgeNum\((\w+)\)', r'edgeNum_cb(\1)', 1),
+           rx(r'if \(EdgeData::has_value\)\s*edgeData\.set\((\w+), _edgeData\((\w+), (\w+)\)\);', r'self->edgeData[\1] = edgeData_cb(\2, \3);', 1),
+           rx(r'(?<![\w.>])edgeDst\[(\w+)\] = _edgeDst\((\w+), (\w+)\);', r'self->edgeDst[\1] = edgeDst_cb(\2, \3);', 1),
+           rx(r'(?<![\w.>])edgeIndData\[(\w+)\] = ', r'self->edgeIndData[\1] = ', 1),
+           members(['numNodes', 'numEdges'], minimum=1)],
+    harness="""
+  uint32_t nn = nondet_u32(); __CPROVER_assume(nn >= 1 && nn <= BN);
+  uint64_t total = 0;
+  for (unsigned n = 0; n < BN; ++n) { DEG[n] = nondet_u64(); __CPROVER_assume(DEG[n] <= BD); if (n < nn) total += DEG[n];
+    for (unsigned e = 0; e < BD; ++e) { DST[n][e] = nondet_u32(); DAT[n][e] = nondet_u64(); } }
+  /* freshly allocated arrays: arbitrary content */
+  for (unsigned i = 0; i < BN; ++i) IDXA[i] = nondet_u64();
+  G.edgeIndData = IDXA; G.edgeDst = DSTA; G.edgeData = DATA_;
+  CSR_callback_ctor_b(&G, nn, total);
+  __CPROVER_assert(G.numNodes == nn && G.numEdges == total, "node and edge counts");
+  uint64_t ps = 0;
+  for (unsigned n = 0; n < BN; ++n) if (n < nn) {
+    for (unsigned e = 0; e < BD; ++e) if (e < DEG[n]) {
+      __CPROVER_assert(G.edgeDst[ps + e] == DST[n][e], "slot idx[n-1]+e holds edgeDst(n, e)");
+      __CPROVER_assert(G.edgeData[ps + e] == DAT[n][e], "slot idx[n-1]+e holds edgeData(n, e)");
+    }
+    ps += DEG[n];
+    __CPROVER_assert(G.edgeIndData[n] == ps, "index entry n = number of edges of nodes <= n (prefix sum)");
+  }
+""",
+    reach=True, no_flags=['--conversion-check'],
+    inst='EdgeTy with has_value (data kept), no NUMA options; arrays supplied by the harness with arbitrary initial content',
+    says='BOUNDED: for every graph with <= 3 nodes and degrees <= 3 the constructed index is the prefix sum of the degrees and every slot of every node\'s range holds the callback\'s destination and data; callbacks are only asked for existing edges'))
+
 EXPLANATION = ('LC_CSR_Graph raw_begin/raw_end/getDegree and the callback constructor are extracted from /repo, lowered to C and proved: per-node edge ranges come from consecutive index entries '
                '(ordered, adjacent, from 0 to numEdges: lemma over the contracts), and the constructor builds the index as the prefix sum of the callback\'s edge counts and writes every slot of a node\'s range exactly once with the callback\'s destination and data.')
 NOT_DECIDED = ('every other layout (CSR+CSC, InOut, Linear, InlineEdge, Morph-LC, hypergraph), file-based construction (constructFrom, readGraphFromGRFile), in-edges, transpose, edge sorting, binary-search lookup, NUMA options, local ranges (C13 covers the division).')
